@@ -119,6 +119,13 @@ inline int replica_main(int argc, char **argv) {
         if (n >= 2)
             for (unsigned b = 0; b < LIM; ++b)
                 for (unsigned e = 0; e < LIM; ++e) {
+#if C12_W > 8
+                    // W > 8: all bases below n, exponents 0..40, 2^k-1..2^k+1, n-2..n, top of range
+                    if (b >= n) continue;
+                    if (!(e <= 40 || ((e & (e - 1)) == 0) || (((e + 1) & e) == 0) ||
+                          (((e - 1) & (e - 2)) == 0) || (e + 2 >= n && e <= n) || e + 4 >= LIM))
+                        continue;
+#endif
                     unsigned long long r = 1 % n, x = b % n;
                     for (unsigned ee = e; ee; ee >>= 1) {
                         if (ee & 1u) r = (r * x) % n;
